@@ -373,3 +373,26 @@ c.raise_case('not_an_Exception', 'BaseException', ensures=[
         sym.exc_sub(x.exc.cls, sym.exc_const('Exception'))))])
 c.raises_only_listed = True
 register(c)
+
+# Second view of _is_literally_representable (proved): it is decided by exactly one call of
+# _format_value on the very value -- no shortcut that answers without the parse round trip.
+c = Contract('config.py::_is_literally_representable#body', ['C06', 'C07'])
+c.target = 'config.py::_is_literally_representable'
+c.param('value', KVal)
+c.result = KBool
+c.modifies = set(world.STATE) - {'HELD_OPERATIVE_CONFIG_LOCK', 'HELD_SINGLETONS_LOCK'}
+
+
+def _fv_calls(x):
+  return [e for e in x.trace if e.get('call') == 'config.py::_format_value' and 'result' in e]
+
+
+c.ensure('true_exactly_when_format_value_yields_a_literal_for_this_value', lambda x: (
+    z3.BoolVal(False) if len(_fv_calls(x)) != 1 else z3.And(
+        sym.to_val(_fv_calls(x)[0]['args']['value']) == x.a.value.e,
+        x.result.e == z3.Not(_fv_calls(x)[0]['result'].is_none))))
+c.raise_case('not_an_Exception', 'BaseException', ensures=[
+    ('only_exceptions_outside_the_Exception_hierarchy_escape', lambda x: z3.Not(
+        sym.exc_sub(x.exc.cls, sym.exc_const('Exception'))))])
+c.raises_only_listed = True
+register(c)
